@@ -673,7 +673,6 @@ private:
       throw std::runtime_error("ThreadPool is draining and not accepting new work");
     }
 
-    bool shouldSpawn = false;
     {
       std::unique_lock<std::mutex> lock(_mutex);
       if (_shutdown)
@@ -688,18 +687,16 @@ private:
 
       _tasks.emplace(std::move(f));
 
-      // Check if we should spawn a new thread
+      // Spawn while still holding the lock: the size test, the thread creation and
+      // the registration in _threads must be ONE critical section. Otherwise every
+      // submitter that passes the test before the first new worker has registered
+      // itself spawns one too (pool exceeds _maxSize), and a new worker can pick up a
+      // task before it is in _threads, where shutdown()/stop() cannot see and join it.
       if (_threads.size() < _maxSize)
       {
-        shouldSpawn = true;
+        spawnWorkerLocked();
       }
     } // Release mutex here
-
-    // Spawn outside of the lock to avoid deadlock
-    if (shouldSpawn)
-    {
-      spawnWorker();
-    }
 
     _condition.notify_one();
   }
@@ -712,7 +709,6 @@ private:
       return false; // Draining, reject task
     }
 
-    bool shouldSpawn = false;
     {
       std::unique_lock<std::mutex> lock(_mutex);
       if (_shutdown)
@@ -727,24 +723,31 @@ private:
 
       _tasks.emplace(std::move(f));
 
-      // Check if we should spawn a new thread
+      // Spawn while still holding the lock: the size test, the thread creation and
+      // the registration in _threads must be ONE critical section. Otherwise every
+      // submitter that passes the test before the first new worker has registered
+      // itself spawns one too (pool exceeds _maxSize), and a new worker can pick up a
+      // task before it is in _threads, where shutdown()/stop() cannot see and join it.
       if (_threads.size() < _maxSize)
       {
-        shouldSpawn = true;
+        spawnWorkerLocked();
       }
     } // Release mutex here
-
-    // Spawn outside of the lock to avoid deadlock
-    if (shouldSpawn)
-    {
-      spawnWorker();
-    }
 
     _condition.notify_one();
     return true;
   }
 
   void spawnWorker()
+  {
+    std::lock_guard<std::mutex> lock(_mutex);
+    spawnWorkerLocked();
+  }
+
+  /// Creates a worker and registers it in _threads. The caller holds _mutex; the
+  /// new thread's first shared access is to lock _mutex, so it cannot run a task
+  /// before it is registered.
+  void spawnWorkerLocked()
   {
     std::thread t(
       [this]()
@@ -926,7 +929,6 @@ private:
         #undef VALIDATE_CANARY
       });
 
-    std::lock_guard<std::mutex> lock(_mutex);
     auto threadId = t.get_id();
     _threads.emplace(threadId, std::move(t));
 
